@@ -155,8 +155,39 @@ func tSelect(arr, idx Term) Term {
 	return app("select", e, arr, idx)
 }
 func tStore(arr, idx, v Term) Term { return app("store", arr.Sort, arr, idx, v) }
-func tAdd(a, b Term) Term          { return app("+", SInt, a, b) }
-func tSub(a, b Term) Term          { return app("-", SInt, a, b) }
+func isLit(t Term) bool {
+	if t.S == "" {
+		return false
+	}
+	for _, c := range t.S {
+		if c < '0' || c > '9' {
+			return false
+		}
+	}
+	return len(t.S) < 18
+}
+func litVal(t Term) int64 { var n int64; fmt.Sscanf(t.S, "%d", &n); return n }
+func tAdd(a, b Term) Term {
+	if isLit(a) && isLit(b) {
+		return tInt(litVal(a) + litVal(b))
+	}
+	if b.S == "0" {
+		return a
+	}
+	if a.S == "0" {
+		return b
+	}
+	return app("+", SInt, a, b)
+}
+func tSub(a, b Term) Term {
+	if isLit(a) && isLit(b) {
+		return tInt(litVal(a) - litVal(b))
+	}
+	if b.S == "0" {
+		return a
+	}
+	return app("-", SInt, a, b)
+}
 func tMul(a, b Term) Term          { return app("*", SInt, a, b) }
 func tLe(a, b Term) Term           { return app("<=", SBool, a, b) }
 func tLt(a, b Term) Term           { return app("<", SBool, a, b) }
